@@ -173,6 +173,8 @@ type nameBinding struct {
 
 // Frame executes one function body.
 type Frame struct {
+	noRecover bool // inlined from a non-deferred call: recover() returns nil here
+	recoveredVal Term // standalone verification of a deferred recover helper: what recover() returns (spec name `recovered`)
 	vc        *VC
 	w         *World
 	fn        *ssa.Function
